@@ -182,9 +182,11 @@ def run(prop: str, tier: str, seed: int, scratch: Path, replay=None, model_ok=Tr
                 continue
             for ci, k in coqrun.parse_pairs(m1.group(1)):
                 r = results[base + ci]
-                dbg = scratch / f'tmdebug_{base + ci}.v'
-                dbg.write_text(debug_file(coq_case(r['case'], r['obs']), k))
-                _, dout = coqrun.coqc_file(dbg)
+                dout = ''
+                if len(corr_failures) < 3:          # model-vs-implementation details for the first few only
+                    dbg = scratch / f'tmdebug_{base + ci}.v'
+                    dbg.write_text(debug_file(coq_case(r['case'], r['obs']), k))
+                    _, dout = coqrun.coqc_file(dbg)
                 corr_failures.append({'case': r['case'], 'op_index': k, 'op': r['case']['evs'][k] if k < len(r['case']['evs']) else None,
                                       'implementation': r['obs'][k] if k < len(r['obs']) else None,
                                       'model_vs_impl_coq': ' '.join(dout.split())[-3000:]})
